@@ -23,6 +23,27 @@ def cmFun (l : List (Nat × List Int)) (v : Nat) : Option (List Int) :=
 
 def notOk : String := "res=extraneous||res=missing||res=mismatch||res=missing-cm||res=err||decode-err"
 
+def runSdh (era red nred dat ndat used cm decl ipre ih refs ins : String) : Out :=
+    match parseHex? red, parseNat? nred, parseHex? dat, parseNat? ndat, (splitList used).mapM parseNat?,
+          parseCM cm, parseHex? ipre, (splitList refs).mapM parseNat?, (splitList ins).mapM parseNat? with
+    | some red, some nred, some dat, some ndat, some wit, some cm, some ipre, some refs, some ins =>
+      -- the Go map of used versions: witness-set scripts, reference-input scripts, spent-input scripts
+      let used := (wit ++ refs ++ ins).eraseDups
+      let t : Tx String := {
+        nRedeemers := nred, nDatums := ndat, redeemersRaw := red, datumsRaw := dat,
+        emptyRedeemers := if era = "conway" || era = "dijkstra" then [0xa0] else [0x80],
+        used := used, declared := if decl = "-" then none else some decl }
+      -- the digest primitive, tabulated by the Go side for the one pre-image it built independently
+      let h : Bytes → String := fun b => if b = ipre then ih else "?"
+      let v := rule h (cmFun cm) t
+      let spec :=
+        if nred = 0 ∧ ndat = 0 then (if decl = "-" then "res=ok" else notOk)
+        else if decl = "-" then notOk
+        else if decl ≠ ih then notOk
+        else "*"
+      { model := "res=" ++ v.str, spec := spec }
+    | _, _, _, _, _, _, _, _, _ => badOp
+
 def handle (line : String) : Out :=
   match tokens line with
   | ["lv", used, cm] =>
@@ -40,23 +61,9 @@ def handle (line : String) : Out :=
       | .error (.missingCostModel _) => { model := "err", spec := spec }
     | _, _ => badOp
   | ["sdh", era, red, nred, dat, ndat, used, cm, decl, ipre, ih] =>
-    match parseHex? red, parseNat? nred, parseHex? dat, parseNat? ndat, (splitList used).mapM parseNat?,
-          parseCM cm, parseHex? ipre with
-    | some red, some nred, some dat, some ndat, some used, some cm, some ipre =>
-      let t : Tx String := {
-        nRedeemers := nred, nDatums := ndat, redeemersRaw := red, datumsRaw := dat,
-        emptyRedeemers := if era = "conway" then [0xa0] else [0x80],
-        used := used, declared := if decl = "-" then none else some decl }
-      -- the digest primitive, tabulated by the Go side for the one pre-image it built independently
-      let h : Bytes → String := fun b => if b = ipre then ih else "?"
-      let v := rule h (cmFun cm) t
-      let spec :=
-        if nred = 0 ∧ ndat = 0 then (if decl = "-" then "res=ok" else notOk)
-        else if decl = "-" then notOk
-        else if decl ≠ ih then notOk
-        else "*"
-      { model := "res=" ++ v.str, spec := spec }
-    | _, _, _, _, _, _, _ => badOp
+    runSdh era red nred dat ndat used cm decl ipre ih "-" "-"
+  | ["sdh", era, red, nred, dat, ndat, used, cm, decl, ipre, ih, refs, ins] =>
+    runSdh era red nred dat ndat used cm decl ipre ih refs ins
   | _ => badOp
 
 end GV.Drv.C31
